@@ -18,6 +18,7 @@ from concurrent.futures import ThreadPoolExecutor
 VERIF = os.path.dirname(os.path.dirname(os.path.abspath(__file__)))
 F, M, P, C, A, T, DC = ("factor.py", "measure.py", "pdf.py", "conditional.py", "approximate_conditional.py",
                         "experimental/truncated_measure.py", "utils/dataclass.py")
+X = "experimental/misc.py"
 
 # (id, kind, properties, file, function expected in the report (firing), old, new)
 MUTANTS = [
@@ -199,6 +200,18 @@ MUTANTS = [
      "            - (normal_pdf(self.alpha) - normal_pdf(self.beta)) ** 2 / Z**2", "            - (normal_pdf(self.alpha) - normal_pdf(self.beta)) ** 2 / Z"),
     ("m137-moment-recursion-rewrite", "silent", ["C20"], T, "",
      "            L_new = -(beta_pdf - alpha_pdf) / denominator + (k - 1) * L2", "            L_new = (alpha_pdf - beta_pdf) / denominator + L2 * (k - 1)"),
+    # ---------------- survivors of the mutation sweep (tools_mutsweep.py) that turned out to be holes, and the bodies of the summarised helpers
+    ("m142-diag-conditional-lambda-route-sign", "firing", ["C07"], C, "",
+     "            self.Sigma, ln_det_Lambda = invert_diagonal(self.Lambda)\n            self.ln_det_Sigma = -ln_det_Lambda\n\n\n@dataclass(kw_only=True)\nclass NNControlGaussianConditional",
+     "            self.Sigma, ln_det_Lambda = invert_diagonal(self.Lambda)\n            self.ln_det_Sigma = ln_det_Lambda\n\n\n@dataclass(kw_only=True)\nclass NNControlGaussianConditional"),
+    ("m143-relu-kfunc-division", "firing", ["C17"], A, "HeteroscedasticReLUConditional.k_func",
+     "        return Zh * c0 + c1 * (Eh - Zh * omega_dagger)", "        return Zh / c0 + c1 * (Eh - Zh * omega_dagger)"),
+    ("m144-binom-body", "firing", ["C20"], X, "binom",
+     "gammaln(k - i + 1)", "gammaln(k - i + 2)"),
+    ("m145-cdf-body-scale", "firing", ["C20", "C16", "C17"], X, "normal_cdf",
+     "    y = norm.cdf(x)\n", "    y = 0.5 * norm.cdf(x)\n"),
+    ("m146-cdf-guard-rewritten", "silent", ["C20"], X, "",
+     "    return jnp.where(y < 1., y, 1. + norm.logcdf(x))", "    return jnp.where(y >= 1., 1. + norm.logcdf(x), y)"),
     # ---------------- slices with non-default index semantics, dropped broadcast (from seeded changes of round 2)
     ("m140-measure-slice-clip-cached", "firing", ["C12", "C04"], M, "GaussianMeasure.slice",
      "        new_measure = GaussianMeasure(Lambda=Lambda_new, nu=nu_new, ln_beta=ln_beta_new)\n        if self.Sigma is not None:\n            new_measure.Sigma = jnp.take(self.Sigma, indices, axis=0)", "        new_measure = GaussianMeasure(Lambda=Lambda_new, nu=nu_new, ln_beta=ln_beta_new)\n        if self.Sigma is not None:\n            new_measure.Sigma = jnp.take(self.Sigma, indices, axis=0, mode=\"clip\")"),
